@@ -109,7 +109,7 @@ func (cl *vCluster) waitSettled(timeout time.Duration) error {
 		good := true
 		var ref string
 		for i, m := range live {
-			if !m.db.rt.IsBootstrapped() || int(m.db.rt.NumMembers()) != len(live) || m.db.rt.Discovery().NumMembers() != len(live) {
+			if !m.db.rt.IsBootstrapped() || int(m.db.rt.NumMembers()) != len(live) || m.db.rt.Discovery().NumMembers() != len(live) || rtMembers(m.db) != len(live) {
 				good = false
 				break
 			}
